@@ -25,7 +25,7 @@ func EngineSessionC11(t *tape.Tape) *core.RunResult {
 	ctx, cancel := context.WithCancel(context.Background())
 	defer cancel()
 	z := int64(t.Choose(1 << 16))
-	hash := uint(1 + t.Choose(2))
+	hash := uint(1 + t.Choose(3)) // 3 MB: not a power of two
 	mk := func(h uint) *engine.Engine {
 		return engine.New(ctx, "c11", "verif", search.AlphaBeta{Eval: search.Leaf{Eval: eval.Material{}}}, engine.WithZobrist(z), engine.WithOptions(engine.Options{Hash: h}))
 	}
